@@ -124,6 +124,11 @@ Theorem C08_deleting_entities_conserves : forall ids ms m c, LInvS ms m ->
   cx_stuck c' = cx_stuck c /\ exists m', LInvS ms' m' /\ conserves m m' [] [] c c'.
 Proof. exact purge_conserves. Qed.
 
+Theorem C08_entry_api_conserves : forall ms m av e o c, LInvS ms m ->
+  let '(ms', r, c') := st_entry ms av e o c in
+  exists m', LInvS ms' m' /\ cx_stuck c' = cx_stuck c /\ conserves m m' (entry_ins ms o) (entry_rets o r) c c'.
+Proof. exact entry_conserves. Qed.
+
 Example C08_nonvacuous :
   let s := {| v_len := 6; v_slots := NM.add 5 (SInit (13, 3%Z)) (NM.add 2 (SInit (12, 2%Z)) (NM.add 0 (SInit (11, 1%Z)) (NM.empty slot))) |} in
   rev (cx_drops (snd (vec_clean s [0; 2; 5] cx0))) = [11; 12; 13] /\
@@ -145,3 +150,4 @@ Print Assumptions C08_remove_conserves.
 Print Assumptions C08_get_mut_conserves.
 Print Assumptions C08_drain_conserves.
 Print Assumptions C08_deleting_entities_conserves.
+Print Assumptions C08_entry_api_conserves.
